@@ -124,7 +124,8 @@ func (x *Exec) doIf(st *State, fr *Frame, b *ssa.BasicBlock, cond *Term, label s
 	}
 	j := -1
 	li := loopsOf(fr.fn)
-	if _, isHeader := li.headers[b.Index]; !isHeader && !x.noMerge {
+	noMerge := x.noMerge || (x.curCon != nil && x.curCon.has("nomerge"))
+	if _, isHeader := li.headers[b.Index]; !isHeader && !noMerge {
 		j = ipdoms(fr.fn)[b.Index]
 		if j >= 0 {
 			if _, joinIsHeader := li.headers[j]; joinIsHeader {
